@@ -42,12 +42,15 @@ FINDING_CLASSES = {
 # ------------------------------------------------------------------------------------------------
 # registry of public functions with sample arguments
 # ------------------------------------------------------------------------------------------------
-def registry(rng):
+def registry(rng, srng=None):
+    """srng draws the SHAPE of the sample (sizes, index sets); rng draws the values.  Two registries with equal srng streams are
+    'siblings': same n, same breakpoints / knee positions, different curves — what position-keyed hidden state confuses."""
+    srng = srng or rng
     import kneeliverse.clustering as cl, kneeliverse.convex_hull as ch, kneeliverse.curvature as cu, kneeliverse.dfdt as df
     import kneeliverse.evaluation as ev, kneeliverse.knee_ranking as kr, kneeliverse.kneedle as kn, kneeliverse.linear_fit as lf
     import kneeliverse.lmethod as lm, kneeliverse.menger as mg, kneeliverse.metrics as M, kneeliverse.multi_knee as mk
     import kneeliverse.postprocessing as pp, kneeliverse.rdp as rdp, kneeliverse.zmethod as zm
-    n = rng.randrange(12, 40)
+    n = srng.randrange(12, 40)
     fam = rng.choice(['missratio', 'steps', 'convex', 'walk', 'elbows'])
     pts, _ = gen.dyadic_curve(rng, n, fam, scale_exp=0)
     if rng.random() < 0.5:
@@ -56,12 +59,12 @@ def registry(rng):
         pts[0, 1] += 1
     x, y = pts[:, 0].copy(), pts[:, 1].copy()
     yh = np.abs(y + np.array([rng.choice([0, 1, -1, 2]) for _ in range(n)]))
-    red = np.array(gen.random_subset_with_ends(rng, n, rng.randrange(2, 8)))
+    red = np.array(gen.random_subset_with_ends(srng, n, srng.randrange(2, 8)))
     removed = rdp.compute_removed_points(pts, red)
     m = len(red)
-    kpos = np.array(sorted(rng.sample(range(1, m - 1), min(m - 2, 3)))) if m > 3 else np.array([1])
-    knees = np.array(sorted(rng.sample(range(2, n - 2), 4)))
-    expected = pts[sorted(rng.sample(range(n), 3))].copy()
+    kpos = np.array(sorted(srng.sample(range(1, m - 1), min(m - 2, 3)))) if m > 3 else np.array([1])
+    knees = np.array(sorted(srng.sample(range(2, n - 2), 4)))
+    expected = pts[sorted(srng.sample(range(n), 3))].copy()
     coef = lf.linear_fit_points(pts)
     cm = ev.cm(pts, knees, expected, 0.05)
     R = []
@@ -198,6 +201,8 @@ def purity_case(ctx, name, f, args, kwargs):
         return
     if not same(snap, base) or any(isinstance(s, list) and s != b for s, b in zip(snap, base)):
         ctx.fail('predicate', 'arguments-left-unmodified', site, case, dict(before=core.jsonable(snap), after=core.jsonable(base)))
+    if getattr(ctx, 'c20_calls', None) is not None and ctx.phase == 'main':
+        ctx.c20_calls.append((name, f, copy.deepcopy(snap), dict(kwargs), r0))
     r1 = f(*[layout(a, 'C') for a in args], **kwargs)
     if not same(r0, r1):
         ctx.fail('predicate', 'identical-result-when-called-again', site, case, dict(first=core.jsonable(r0), second=core.jsonable(r1)))
@@ -273,6 +278,39 @@ def dtype_sweep(ctx, rounds):
             dtype_case(ctx, name, f, pts, extra)
 
 
+def history_independence(ctx, calls):
+    """'returns identical results when called again' across HISTORIES: the results this process obtained (after hundreds of earlier calls
+    on other inputs) are compared with the results of a fresh interpreter that evaluates the same calls in reverse order.  A module-level
+    memo, a mutable default argument or a buffer kept between calls makes the two differ; the replay is the call with its arguments."""
+    import pickle, subprocess, sys, tempfile
+    todo = list(reversed(calls))
+    d = tempfile.mkdtemp(prefix='knee-c20-')
+    fin, fout = os.path.join(d, 'in.pkl'), os.path.join(d, 'out.pkl')
+    try:
+        try:
+            with open(fin, 'wb') as fh:
+                pickle.dump([(n, f, a, k) for n, f, a, k, _ in todo], fh)
+        except Exception as e:
+            ctx.tag('history-independence:not-picklable')
+            return
+        env = dict(os.environ, PYTHONDONTWRITEBYTECODE='1')
+        p = subprocess.run([sys.executable, '-m', 'harness.fresh_eval', fin, fout], cwd=core.VERIF, env=env, capture_output=True, text=True, timeout=900)
+        if p.returncode != 0 or not os.path.exists(fout):
+            raise core.InfraError('fresh interpreter for the history-independence clause failed: ' + (p.stderr or '')[-400:])
+        with open(fout, 'rb') as fh:
+            fresh = pickle.load(fh)
+    finally:
+        import shutil
+        shutil.rmtree(d, ignore_errors=True)
+    for (name, f, args, kwargs, r_here), (st, r_fresh) in zip(todo, fresh):
+        ctx.tag('history-independence:compared')
+        if st != 'ok' or not same(r_here, r_fresh):
+            case = dict(function=name, args=[a.tolist() if isinstance(a, np.ndarray) else (a if isinstance(a, (int, float, list, bool)) else repr(a)) for a in args],
+                        history='this process had evaluated the registry on other inputs before; the fresh interpreter had not')
+            ctx.fail('predicate', 'result-independent-of-earlier-calls(fresh interpreter vs this process)', 'kneeliverse.' + name, case,
+                     dict(after_history=core.jsonable(r_here), fresh=core.jsonable(r_fresh) if st == 'ok' else r_fresh))
+
+
 def exhibit(ctx, where, what, case):
     """try to turn a static linking offence into a concrete failing call"""
     import importlib
@@ -325,9 +363,15 @@ def run(ctx):
         ctx.fail('proof', 'translator-could-not-import', str(p[0]), {}, str(p[1]))
     ctx.count('link-table', nontrivial_key=('table', json.dumps(rep.get('counts'))), sample=dict(link_table=rep.get('counts')))
     # ---- (a) purity / determinism / layouts
-    for _ in range(3 if ctx.tier == 'quick' else 60):
-        for name, f, args, kwargs in registry(rng):
+    ctx.c20_calls = [] if ctx.phase == 'main' else None
+    import random as _random
+    for rnd in range(4 if ctx.tier == 'quick' else 60):
+        # rounds 2k and 2k+1 are siblings: same sizes and index arguments, different curves
+        for name, f, args, kwargs in registry(rng, _random.Random(ctx.seed * 1000 + rnd // 2)):
             purity_case(ctx, name, f, args, kwargs)
+    if ctx.c20_calls:
+        history_independence(ctx, ctx.c20_calls[-(4 if ctx.tier == 'quick' else 12) * 130:])
+    ctx.c20_calls = None
     dtype_sweep(ctx, 60 if ctx.tier == 'quick' else 1500)
 
 
